@@ -44,7 +44,7 @@ def run(tier, rep):
     for L, a, q, r, err in vlib.pool_map(first_call_float32, [0], chunksize=1)[0]:
         # conditioning of the three-term formula for a geometric triple: 1/(1-q)^2 on differences of size a
         tol = 64 * EPS * abs(L) * max(1.0, 2.0 / (1 - q) ** 2) + 1e-300
-        if not abs(r - L) <= tol + err:
+        if not abs(r - L) <= tol:          # against the exact limit alone (the library's own abserr is not part of the oracle)
             rep.violation('history:float32-first', dict(L=L, a=a, q=q, got=r, abserr=err),
                           'after a float32 call earlier in the process dea3 returns %r for L=%r, a=%r, q=%r (error %.3g, reported %.3g)' % (r, L, a, q, abs(r - L), err))
     held = []
